@@ -19,7 +19,8 @@ try:
     for p in props:
         o = subprocess.run([os.path.join(V, "check"), p], env=env, stdout=subprocess.PIPE, stderr=subprocess.STDOUT, text=True).stdout
         hit = "VIOLATION property=" + p in o
-        print(f"== {spec} vs {p}: {'DETECTED' if hit else 'silent'}")
+        crash = "Traceback (most recent call last)" in o
+        print(f"== {spec} vs {p}: {'CRASH' if crash else 'DETECTED' if hit else 'silent'}")
         if hit:
             lines = o.splitlines()
             for i, l in enumerate(lines):
